@@ -42,7 +42,7 @@ def run(prop, tier, seed):
                 rep.finding("C03|check-ok-compile-%s|%s" % (o.get("compile"), fam_key), c, o,
                             [{"compile": o.get("compile"), "panic": o.get("panic"), "loc": o.get("panic_loc")}],
                             "accepted by the checker, compile_bytecode: %s %s" % (o.get("compile"), (o.get("panic") or o.get("diag_text") or "")[:200]))
-            else:
+            elif c.get("run", True):
                 st = o.get("status")
                 ok = st == "done" or (st == "error" and (o.get("err") or {}).get("kind") in DOCUMENTED)
                 if not ok and not c.get("mustreject"):
